@@ -1537,6 +1537,8 @@ class Interp:
                 return const(len(x) - 1)
             if x[0] == "nt":
                 return const(len(x[3]))
+            if x[0] == "const" and isinstance(x[1], (str, bytes)):
+                return const(len(x[1]))
             return ("call", "len", x)
         if name in ("list", "tuple") and len(a) == 1:
             x = a[0]
